@@ -254,6 +254,14 @@ func TestC16_Vortex(t *testing.T) {
 			}
 			v.size(1<<d, true, k, nsh)
 		}
+		if flav == "distinct" {
+			// levels of >= 512 nodes are hashed by parallel workers: cross the threshold in every tier
+			for _, n := range []int{600, 1024, 1025, 2048} {
+				if n > 1<<maxLog {
+					v.size(n, false, k, nsh)
+				}
+			}
+		}
 		if flav == "distinct" || flav == "period2" {
 			for n := 1; n <= maxPad; n++ {
 				if n&(n-1) != 0 {
